@@ -59,6 +59,26 @@ class InstNoContainment(c09.Inst):
         return super().cond(node)
 
 
+LITERAL_MISS = []
+
+
+def __k__(container, key):  # noqa: N807
+    """Look-up with an integer LITERAL as key (written as `x[3]` in the rule): a miss is recorded, so that it can be told from a data-indexed miss."""
+    try:
+        return container[key]
+    except KeyError:
+        LITERAL_MISS.append(key)
+        raise
+
+
+class InstLiteralSubscripts(InstNoContainment):
+    def visit_Subscript(self, node):  # noqa: N802
+        node = self.generic_visit(node)
+        if isinstance(node.ctx, ast.Load) and isinstance(node.slice, ast.Constant) and isinstance(node.slice.value, int) and not isinstance(node.slice.value, bool):
+            return ast.copy_location(ast.Call(func=ast.Name(id="__k__", ctx=ast.Load()), args=[node.value, node.slice], keywords=[]), node)
+        return node
+
+
 def literal_keys(func):
     keys = set()
     try:
@@ -76,11 +96,12 @@ def instrumented(func):
     tree = ast.parse(src)
     fd = tree.body[0]
     fd.decorator_list = []
-    inst = InstNoContainment()
+    inst = InstLiteralSubscripts()
     fd.body = [inst.visit(s) for s in fd.body]
     ast.fix_missing_locations(tree)
     g = dict(func.__globals__)
     g["__c__"] = c09.__c__
+    g["__k__"] = __k__
     f2 = c09.compile_function(ast.unparse(tree), fd.name, g)
     return f2, inst.k
 
@@ -180,6 +201,7 @@ def task_class(date_iso):
         for j in range(2**m):
             c09.STATE["j"] = j
             del log[:]
+            del LITERAL_MISS[:]
             try:
                 with np.errstate(all="ignore"):
                     f2(**args)
@@ -187,7 +209,8 @@ def task_class(date_iso):
             except KeyError as e:
                 out.step()
                 key = e.args[0] if e.args else None
-                if log and log[-1][1] == key and isinstance(key, str):  # literal or computed (e.g. region = "ost" if ... else "west")
+                literal_int = bool(LITERAL_MISS) and LITERAL_MISS[-1] == key and not isinstance(key, str)  # written as x[3] in the rule
+                if log and log[-1][1] == key and (isinstance(key, str) or literal_int):  # literal or computed (e.g. region = "ost" if ... else "west")
                     path = f"{log[-1][0]}.{key}"
                     if path not in reported:
                         reported.add(path)
